@@ -23,7 +23,7 @@ import pathlib
 
 from . import common
 
-SRC = pathlib.Path(os.environ.get("VERIF_MEMO_SRC", "/repo/src/yadism"))  # the override is for trying the census on a scratch worktree
+SRC = pathlib.Path(os.environ.get("VERIF_MEMO_SRC", str(common.REPO / "src" / "yadism")))  # the override is for trying the census on a scratch worktree
 SKIP_DIRS = ()
 
 
